@@ -27,7 +27,7 @@ pub fn def() -> PropDef {
             "AddAssign_Less", "AddAssign_Greater", "AddAssign_Equal", "Norm_Zero", "Norm_Trim", "Hash_Zero", "Hash_Trim", "Hash_AppendZeros",
             "Eq_WordLoop", "Eq_DigitWise", "Cmp_DigitWise", "WithScale_Up",
         ],
-        rule: "seeded straight-line programs of 1..40 steps on one accumulator over a pool of operands (random decimals, zeros carrying a scale, ones written 1.00, powers of ten, value-equal twins of the current accumulator, earlier results); each step picks an operation (add, sub, mul, neg, abs, double, half, square, upward with_scale, normalized, clone through a reference, sum of a slice, add/sub/mul with a primitive or a big integer) and one of its overload / compound-assignment forms at random; the model evaluates the same program exactly and after EVERY step the accumulator must be value-equal to the model and ==, cmp and the Hash byte stream of the accumulator against a fresh model-built representation must say equal / Equal / identical; failing histories are minimised (steps dropped while the failure persists). distinct = distinct programs; non-trivial = programs with at least 3 steps whose final value is non-zero",
+        rule: "seeded straight-line programs of 1..40 steps on one accumulator over a pool of operands (random decimals, zeros carrying a scale, ones written 1.00, powers of ten, value-equal twins of the current accumulator, earlier results); each step picks an operation (add, sub, mul, neg, abs, double, half, square, upward with_scale, normalized, clone through a reference, sum of a slice, add/sub/mul with a primitive - 0, +-1, +-2 and every width's MIN / MAX and the first value past each narrower type up to u128::MAX - or a big integer) and one of its overload / compound-assignment forms at random; the model evaluates the same program exactly and after EVERY step the accumulator must be value-equal to the model and ==, cmp and the Hash byte stream of the accumulator against a fresh model-built representation must say equal / Equal / identical; failing histories are minimised (steps dropped while the failure persists). distinct = distinct programs; non-trivial = programs with at least 3 steps whose final value is non-zero",
     }
 }
 
